@@ -171,8 +171,76 @@ def run_cli(case, agg):
         agg.ok(h8("c16cli", case), f"ok:cli:{case['style']}", sample=case if case["style"] == "dec" and case["caches"] == 6 else None)
 
 
+# -- the way the paths are spelled ---------------------------------------------------------------------------
+SPELLINGS = ["plain", "symlinked-dir/..", "dot-and-double-slash", "@relative", "relative-subdir"]
+
+
+def run_spelling(case, agg):
+    """the same three files named in different legal ways: through `link/../name` where link is a symbolic link to a
+    directory elsewhere (the OS resolves .. AFTER following the link; a look-alike file sits where a textual
+    normalisation would point), with ./ and //, as relative names starting with '@', from another working directory"""
+    from suit_generator import cmd_image
+    sp, via = case["spelling"], case["via"]
+    data = content(777)
+    with fresh_dir("c16p") as d:
+        d = os.path.realpath(d)
+        real = os.path.join(d, "store", "deep")
+        os.makedirs(real)
+        os.makedirs(os.path.join(d, "work"))
+        os.makedirs(os.path.join(d, "@build"))
+        names = ("e.suit", "storage.hex", "dfu.hex")
+        if sp == "symlinked-dir/..":
+            os.symlink(real, os.path.join(d, "work", "build"))          # work/build -> store/deep ; work/build/.. == store
+            where = os.path.join(d, "store")
+            paths = [os.path.join(d, "work", "build", "..", n) for n in names]
+            open(os.path.join(d, "work", "e.suit"), "wb").write(b"LOOK-ALIKE " * 9)     # what normpath() would name
+        elif sp == "dot-and-double-slash":
+            where = os.path.join(d, "work")
+            paths = [d + "//work/./" + n for n in names]
+        elif sp == "@relative":
+            where = os.path.join(d, "@build")
+            paths = ["@build/" + n for n in names]
+        elif sp == "relative-subdir":
+            where = os.path.join(d, "work")
+            paths = ["work/../work/" + n for n in names]
+        else:
+            where = os.path.join(d, "work")
+            paths = [os.path.join(where, n) for n in names]
+        open(os.path.join(where, "e.suit"), "wb").write(data)
+        old = os.getcwd()
+        os.chdir(d)
+        try:
+            if via == "cli":
+                from .. import impl
+                rc, so, se = impl.cli(["image", "update", "--input-file", paths[0], "--storage-output-file", paths[1], "--dfu-partition-output-file", paths[2],
+                                       "--update-candidate-info-address", "0x2000", "--dfu-partition-address", "0x8000", "--dfu-max-caches", "2"], d)
+                if rc != 0:
+                    raise RuntimeError(f"cli rc={rc}: {se[-300:]}")
+            elif via == "main":
+                cmd_image.main(image="update", input_file=paths[0], storage_output_file=paths[1], dfu_partition_output_file=paths[2],
+                               update_candidate_info_address=0x2000, dfu_partition_address=0x8000, dfu_max_caches=2)
+            else:
+                cmd_image.ImageCreator.create_files_for_update(paths[0], paths[1], paths[2], 0x2000, 0x8000, 2)
+            smem = refhex.read_hex_file(os.path.join(where, "storage.hex"))
+            dmem = refhex.read_hex_file(os.path.join(where, "dfu.hex"))
+        except Exception as e:
+            agg.viol(f"C16:path-spelling/failed/{type(e).__name__}", f"{case}: {type(e).__name__}: {str(e)[-250:]}")
+            return
+        finally:
+            os.chdir(old)
+    want_rec = struct.pack("<IIII", 0x55AA55AA, 1, 0x8000, len(data)) + b"\x00" * 16
+    if smem != {0x2000 + i: b for i, b in enumerate(want_rec)}:
+        agg.viol("C16:path-spelling/storage-record", f"{case}: record {[(hex(a), b[:16].hex()) for a, b in refhex.regions(smem)][:2]} does not describe the named envelope file ({len(data)} bytes)")
+    elif dmem != {0x8000 + i: b for i, b in enumerate(data)}:
+        agg.viol("C16:path-spelling/dfu-partition", f"{case}: the partition image is not the named envelope file")
+    else:
+        agg.ok(h8("c16p", case), f"ok:{sp}", sample=case if via == "cli" and sp == "symlinked-dir/.." else None)
+
+
 def plan(tier):
     return [CaseStage("update-images", lambda: cases(tier), run, disjoint=True, rule=RULE),
             BfsStage("update-histories", hist_init, hist_step, max_depth=2 if tier == "quick" else 3,
                      rule="histories of image-update generations in one process on one set of paths: 12 (size, partition address, caches) tuples, envelope file rebuilt between steps"),
+            CaseStage("path-spellings", [{"spelling": s_, "via": v} for s_ in SPELLINGS for v in ("api", "main", "cli")], run_spelling,
+                      rule="5 legal spellings of the three paths (symlinked directory + .., ./ and //, @-relative, relative) x API / main / CLI"),
             CaseStage("cli-address-syntax", lambda: cli_cases(tier), run_cli, rule="real CLI, addresses typed as decimal / 0x / 0X / 0o")]
